@@ -2,6 +2,7 @@
 
 import asyncio
 from collections.abc import Callable, Coroutine
+import contextlib
 from dataclasses import dataclass, field
 import json
 import logging
@@ -73,8 +74,8 @@ class Persistence:
         async def save_on_schedule() -> None:
             """Save data and sleep until next save."""
             while True:
-                await self.save()
                 try:
+                    await self.save()
                     await asyncio.sleep(SAVE_INTERVAL)
                 except asyncio.CancelledError:
                     break
@@ -84,7 +85,9 @@ class Persistence:
         async def cancel_save() -> None:
             """Cancel the save task."""
             task.cancel()
-            await task
+            # The task is cancelled without running if it has not started yet.
+            with contextlib.suppress(asyncio.CancelledError):
+                await task
 
         self._cancel_save = cancel_save
 
